@@ -93,10 +93,8 @@ ENTRIES = [
       "            self._response_record,\n            payload_offset=payload_offset\n        )",
       "            self._response_record\n        )", 'C05-D3'),
     B('begin-response-before-header-read', 'wpull/protocol/http/client.py',
-      "        self._response = response = yield from stream.read_response()\n        response.request = request\n\n"
-      "        self.event_dispatcher.notify(self.Event.begin_response, response)\n",
-      "        self.event_dispatcher.notify(self.Event.begin_response, None)\n"
-      "        self._response = response = yield from stream.read_response()\n        response.request = request\n", 'C05-D3'),
+      "        header_data = []\n        header_callback = header_data.append\n",
+      "        self.event_dispatcher.notify(self.Event.begin_response, None)\n        header_data = []\n        header_callback = header_data.append\n", 'C05-D3'),
     # ---------------------------------------------------------------- D4 members, warcinfo pointer, ids
     B('gzip-when-not-compressing', R, "        if self._params.compress:\n            open_func = gzip.GzipFile",
       "        if not self._params.compress:\n            open_func = gzip.GzipFile", 'C05-D4'),
